@@ -114,6 +114,9 @@ def expand(spec):
             # trials stopped from outside the scheduler (the tuner must report them with on_trial_error),
             # also in a run that follows a pause and resume
             p["plan"]["ext_stop"] = {f"{rng.randint(0, 10)}:{rng.choice([0, 0, 1, 1])}": rng.randint(0, 3) for _ in range(rng.randint(1, 3))}
+        if rng.random() < 0.25:
+            # training scripts that end by themselves before the last level (also in the run after a resume)
+            p["plan"]["short"] = {f"{rng.randint(0, 12)}:{rng.choice([0, 0, 1])}": rng.randint(1, max_t) for _ in range(rng.randint(1, 4))}
         if rng.random() < 0.2 and kind != "dehb":
             p["plan"]["fail"] = {f"{rng.randint(0, 10)}:{rng.choice([0, 0, 1])}": rng.randint(0, 3) for _ in range(rng.randint(1, 3))}
     if kind == "moasha":
@@ -342,7 +345,8 @@ def check_trace(o, events, n_workers, sjwd, kind, exc=None, busy_probe=None):
             if fetched.get(tid):
                 V("end_after_all_results", "completion_notified_before_all_fetched_results_delivered", trial=tid)
             ld = last_deliv.get(tid)
-            if ld is None or not _same_result(ld, pl["result"]):
+            # the scheduler may have annotated the dict it was handed (cost-aware Hyperband adds total_elapsed_time)
+            if ld is None or not _same_result(ld, {k_: v_ for k_, v_ in pl["result"].items() if k_ in ld}):
                 V("end_notification", "on_trial_complete_result_is_not_last_delivered", trial=tid)
             state[tid] = "completed"
             o.count(f"kind:{kind}:completion")
